@@ -233,7 +233,8 @@ func (h *harness) project(o *outcome) []string {
 		ids.renter[a.ID] = i
 	}
 
-	valid := s.Fault != "req-invalid-params" && s.Fault != "req-bad-challenge" && s.Fault != "req-unknown-contract"
+	valid := s.Fault != "req-invalid-params" && s.Fault != "req-bad-challenge" && s.Fault != "req-unknown-contract" &&
+		s.Fault != "req-huge-allowance" && s.Fault != "req-zero-fee"
 	// renew / refresh: the contractor follows the chain manager, so the contract element
 	// is rebased exactly when the host's wallet (the funding basis) is behind it
 	elemRebase := "None"
@@ -249,7 +250,7 @@ func (h *harness) project(o *outcome) []string {
 	env := fmt.Sprintf("(mk_env %s %s %s %s %s true %s %s %s %d %d)",
 		coqBool(s.Fault != "host-not-accepting"), coqBool(valid), coqBool(elemFound), basisTerm(s, o.Log.calls), elemRebase,
 		coqBool(observedOK(o.Log.calls, "CPoolParents")), coqBool(observedOK(o.Log.calls, "CTxSet")), coqBool(observedOK(o.Log.calls, "CPoolSet")),
-		o.HostWalletTip.Height, o.HostCS.Index.Height)
+		o.HostWalletTip.Height, o.HostTipEnd.Height)
 
 	hdlock := len(confirmedOnly(o.HostBefore)) - len(confirmedOnly(o.HostAfter))
 	rdlock := len(o.RenterBefore) - len(o.RenterAfter)
@@ -382,7 +383,7 @@ func (h *harness) project(o *outcome) []string {
 	p := o.M.plan
 	if paired {
 		ch := func(i int) string {
-			if p.Cut == i {
+			if p.Cut == i || p.Trunc == i {
 				return "Cut"
 			}
 			return "Deliver"
